@@ -191,7 +191,11 @@ class Impl:
         return [(self.I(int(rest[2 * i])), self.I(int(rest[2 * i + 1]))) for i in range(k)]
 
     def op_addfrom(self, s, t, e, k, *rest):
-        self.G(s).add_interactions_from(self._pairs(k, rest), t=tok(t), e=tok(e))
+        # the documented element forms: 2-tuples (u, v) and 3-tuples (u, v, d) with a data dictionary, in any container
+        prs = self._pairs(k, rest)
+        shaped = [((u, v, {"w": i}) if i % 3 == 1 else (u, v)) for i, (u, v) in enumerate(prs)]
+        bunch = shaped if len(prs) % 2 == 0 else iter(shaped)
+        self.G(s).add_interactions_from(bunch, t=tok(t), e=tok(e))
         return "ok"
 
     def _nodes(self, k, rest):
